@@ -466,6 +466,11 @@ def check_bool(case):
     e = case["expr"]
     obj = bexpr_build(Q, e)
     fn = obj.to_pyfunc()
+    # an expression is a value: deriving further expressions from it (a common sub-query reused in
+    # several queries) must not change what it means, neither interpreted nor compiled afterwards
+    never = Q.eq("zz-no-such-value")
+    _derived = [obj & never, obj | Q.eq("zz-other"), ~obj, never & obj, never | obj]
+    fn_after = obj.to_pyfunc()
     leaves = bexpr_leaves(e)
     n_true = n_false = n_skip = 0
     for v in case["values"]:
@@ -483,6 +488,9 @@ def check_bool(case):
         interp = obj.test(v)
         called = obj(v)
         comp = fn(v)
+        if bool(fn_after(v)) != bool(comp):
+            raise Violation("expression %r on %r: compiled before deriving other expressions from it gives %r, "
+                            "compiled afterwards %r" % (e, v, comp, fn_after(v)), expr=e, value=v)
         if bool(interp) != bool(comp):
             raise Violation("expression %r on %r: interpreted test() gives %r, compiled to_pyfunc() gives %r"
                             % (e, v, interp, comp), expr=e, value=v)
